@@ -45,9 +45,9 @@ if os.path.exists(rp):
     for i in sorted(res):
         r = res[i]
         mp = os.path.join(V, "seeded", i, "meta.json")
-        title = r.get("title", "")
+        title = r.get("title", ""); miss_note = ""
         if os.path.exists(mp):
-            mm = json.load(open(mp)); title = mm.get("title", title)
+            mm = json.load(open(mp)); title = mm.get("title", title); miss_note = mm.get("miss_note", "")
         if not r.get("applied"):
             rows.append(f"| {i} | {r['property']} | {title[:140]} | (patch no longer applies to HEAD after a later fix) | - |"); continue
         det = []
@@ -55,7 +55,7 @@ if os.path.exists(rp):
             for v in c["violations"]:
                 mm = re.search(r"replay=replays/\S+?-oracle-(.+?)-\d+\.json", v)
                 det.append(f"{p}: oracle `{mm.group(1)}`" if mm else f"{p}: " + ("correspondence" if "corr" in v else v.split("replay=")[-1][:40]))
-        rows.append(f"| {i} | {r['property']} | {title[:140].replace('|','/')} | {'; '.join(sorted(set(det))[:3]) if r['detected'] else '**MISSED**'} | {'yes' if r['with_input'] else ('no-failing-input-found' if r['detected'] else '-')} |")
+        rows.append(f"| {i} | {r['property']} | {title[:140].replace('|','/')} | {'; '.join(sorted(set(det))[:3]) if r['detected'] else ('**MISSED**' + (' - ' + miss_note if miss_note else ''))} | {'yes' if r['with_input'] else ('no-failing-input-found' if r['detected'] else '-')} |")
     n = sum(1 for r in res.values() if r.get("applied")); d = sum(1 for r in res.values() if r.get("applied") and r["detected"])
     rows.insert(0, f"{d} of {n} applicable seeded changes are reported as VIOLATION by the quick tier of the property's check (run through `seeded/run_seeded.py`, i.e. `VERIF_REPO=<scratch worktree with the patch> ./check <Cxx> quick`; /repo is never touched).\n")
 sec10 = "\n".join(rows)
